@@ -203,6 +203,7 @@ func genTable(r *rand.Rand, idx int, srs srsSpec) tableSpec {
 	for i := 0; i < nattr; i++ {
 		attrs = append(attrs, colSpec{Name: fmt.Sprintf("%s%d", []string{"a", "naam", "Col_", "v", "a", "naam", "hoogte_m²_", "straße", "étages", "opp\u00a0m"}[r.Intn(10)], i), Type: types[r.Intn(len(types))], NotNull: r.Intn(5) == 0})
 	}
+	t.Z, t.M = []int{0, 0, 2}[r.Intn(3)], []int{0, 0, 2}[r.Intn(3)] // prohibited / optional; the features are XY
 	g := colSpec{Name: t.GCol, Type: t.GType}
 	// positions: the geometry column first / middle / last, the key first (usual) or elsewhere
 	cols := append([]colSpec{}, attrs...)
@@ -395,6 +396,30 @@ func genC12Case(r *rand.Rand, id, p, n int) c12Case {
 	}
 	if r.Intn(6) == 0 {
 		k.Calls = append(k.Calls, c12Call{Table: k.Tables[0].Name, Feats: genStream(r, k.Tables[0], r.Intn(2*p+2), pkMode, &lasts[0], emptyMode)})
+	}
+	// what the source records as the extent of each table: computed over the features handed to the writer and,
+	// in a third of the cases, over further features of the source that are NOT handed over (the writer gets a
+	// prefix of the source's rows; with n = 0 nothing at all): NULL / exact / loose / stale.  The target's recorded
+	// extent is the bounding box of what was WRITTEN, whatever the source says.
+	for i := range k.Tables {
+		var pts [][2]float64
+		for _, c := range k.Calls {
+			if c.Table == k.Tables[i].Name {
+				for _, f := range c.Feats {
+					pts = append(pts, fpts(f.G.flat())...)
+				}
+			}
+		}
+		if r.Intn(3) == 0 {
+			var dummy int64
+			for _, f := range genStream(r, k.Tables[i], 1+r.Intn(4), 1, &dummy, 2) {
+				pts = append(pts, fpts(f.G.flat())...)
+			}
+			k.Tables[i].recordExtent(r, pts)
+			k.Tables[i].SrcExtentMode += ", source holds more features than are written"
+		} else {
+			k.Tables[i].recordExtent(r, pts)
+		}
 	}
 	k.Class = fmt.Sprintf("tables=%d srs=%s pk=%s empty=%s", ntab, []string{"own id", "pre-seeded id, library content", "pre-seeded id, other content (F10 regression)"}[srsMode],
 		[]string{"explicit", "auto"}[pkMode], []string{"some", "all", "none"}[emptyMode])
@@ -796,12 +821,12 @@ func runC12(c *hc.Ctx) error {
 	c.CorrInit("Texel.Corr.C12", "theories/Corr/C12.v", 40)
 	c.Sum.Rule = "every (page size p in 1..7, feature count n in 0..3p+1) pair several times, plus p in {50,1000}; per case random tables " +
 		"(0-5 attribute columns INTEGER/MEDIUMINT/REAL/DOUBLE/TEXT/TEXT(20)/DATETIME/DATE/TIMESTAMP, NOT NULL or not, key column first or elsewhere, geometry column first/middle/last, " +
-		"8 geometry type names, srs with an id of its own / pre-seeded id with library content / pre-seeded id with other content), 1-3 tables per file, " +
+		"8 geometry type names, z / m prohibited (0) or optional (2) in the source's gpkg_geometry_columns, the source's recorded extent NULL / exact / loose (larger) / stale (elsewhere) and computed over the written features or over more features than are handed to the writer (a prefix of the source; nothing when n = 0), srs with an id of its own / pre-seeded id with library content / pre-seeded id with other content), 1-3 tables per file, " +
 		"one WriteFeatures call per table (sometimes a second call on the first table), values NULL/integer (incl. int64 extremes)/real/text (quotes, unicode, empty, long)/time.Time (what ReadFeatures delivers for DATE, DATETIME, TIMESTAMP columns: midnight, whole seconds, non-zero milliseconds, nanoseconds, before 1970), " +
 		"geometries point/linestring/polygon(with hole)/multipoint/multilinestring/multipolygon, ~20% empty (POINT EMPTY = NaN, no-point geometries) or all empty or none, " +
 		"keys explicit increasing with gaps or NULL (assigned by SQLite: insertion order observable). distinct = distinct (p, n, class, schema shape); non-trivial = n > 0"
 	c.Sum.Oracle = "on the file written by the real TargetGeopackage, read back with database/sql: one row per feature in stream order with equal attribute values (date/time cells read raw and compared as instants to the nanosecond: the driver writes a time.Time in its own text layout) and an equal decoded geometry " +
-		"(GeoPackage header srs id and empty flag), rtree = one (key, bbox) entry per row with a non-empty geometry, gpkg_contents extent = bounding box of all written coordinates (NULL if none), " +
+		"(GeoPackage header srs id and empty flag), rtree = one (key, bbox) entry per row with a non-empty geometry, gpkg_contents extent = bounding box of all written coordinates (NULL if none) whatever extent the source records, gpkg_geometry_columns z = m = 0 whatever the source says, " +
 		"PRAGMA table_info / gpkg_contents / gpkg_geometry_columns / gpkg_spatial_ref_sys rows equal the source's, rtree extension registered, " +
 		"SQLite change counter = one transaction per non-empty page + one extent update per page that enlarges the bounding box; a run that ends in log.Fatalf is a violation"
 	c.Sum.Partial = ""
@@ -860,6 +885,10 @@ func runC12(c *hc.Ctx) error {
 			n += len(call.Feats)
 		}
 		c.Count(k.Class)
+		for _, t := range k.Tables {
+			c.Count("source records extent: " + t.SrcExtentMode)
+			c.Count(fmt.Sprintf("source z=%d m=%d", t.Z, t.M))
+		}
 		c.Count(fmt.Sprintf("p=%d", k.P))
 		switch {
 		case n == 0:
